@@ -833,3 +833,19 @@ Proof.
     cbn [fst snd map combine] in *. destruct IH as [I1 [I2 I3]].
     split; [exact I1|]. split; [f_equal; exact I2|f_equal; exact I3].
 Qed.
+
+(** the configured instrument kinds (contract size, settlement asset) influence nothing *)
+Lemma kinds_irrelevant : forall cfg ks,
+  (forall st req, open_order (with_kinds cfg ks) st req = open_order cfg st req) /\
+  (forall ost rq, run_request (with_kinds cfg ks) ost rq = run_request cfg ost rq) /\
+  (forall rqs ost, run (with_kinds cfg ks) ost rqs = run cfg ost rqs) /\
+  (forall req, spec_spent (with_kinds cfg ks) req = spec_spent cfg req) /\
+  (forall led req, spec_accepts (with_kinds cfg ks) led req = spec_accepts cfg led req).
+Proof.
+  intros cfg ks.
+  assert (RR : forall ost rq, run_request (with_kinds cfg ks) ost rq = run_request cfg ost rq)
+    by reflexivity.
+  split; [reflexivity|]. split; [exact RR|]. split; [|split; reflexivity].
+  induction rqs as [|rq t IH]; intro ost; [reflexivity|].
+  rewrite !run_cons, RR. destruct (run_request cfg ost rq) as [[o1 r] e]. rewrite IH. reflexivity.
+Qed.
